@@ -613,7 +613,13 @@ pub fn run(ctx: &Ctx) -> (Report, PropertyMeta) {
         n,
         8..=200,
         |s| {
-            let stream = streams::gen_stream(s, 6, max_exp);
+            // up to 6 items, sometimes a long run of them
+            let max_items = match s.weighted(&[10, 2, 1]) {
+                0 => 6,
+                1 => 40,
+                _ => 150,
+            };
+            let stream = streams::gen_stream(s, max_items, if max_items > 6 { 12 } else { max_exp });
             let total = stream.encode().len();
             let end = s.pick(&[EndKind::Open, EndKind::Eof, EndKind::Eof, EndKind::Reset]);
             let chunks = gen_chunks(s, total);
